@@ -19,7 +19,8 @@ def facts(text):
     inlist = [False] * (n + 2)
     B = []
     depth = 0
-    for t in toks:
+    plain = [False] * (n + 2)
+    for ti, t in enumerate(toks):
         if t.type.endswith("_open") and t.type in ("blockquote_open", "bullet_list_open", "ordered_list_open", "list_item_open"):
             depth += 1
             if t.type != "list_item_open" and t.map:
@@ -45,13 +46,20 @@ def facts(text):
             if style == "atx":
                 m = re.match(r"^\s*#{1,6}([ \t]*)", body)
                 gap = len(m.group(1)) if m else 0
-                if m and "\t" in m.group(1):
-                    style = "atx_tab"
-                elif re.search(r"[ \t]#+[ \t]*$", body) and body.strip().strip("#").strip():
+                if re.search(r"[ \t]#+[ \t]*$", body) and body.strip().strip("#").strip():
                     style = "atx_closed"
+                elif m and "\t" in m.group(1):
+                    style = "atx_tab"
                 if body.strip("# \t") == "":
                     gap = min(gap, 1)
-            B.append(_b("h", t.map, level=int(t.tag[1]), style=style, indent=ind, gap=gap, depth=depth))
+            inl = toks[ti + 1] if ti + 1 < len(toks) and toks[ti + 1].type == "inline" else None
+            content = (inl.content if inl is not None else "").strip()
+            markup = bool(inl is not None and any(c.type not in ("text", "softbreak") for c in (inl.children or []))) or "  " in content or "\t" in content
+            B.append(_b("h", t.map, level=int(t.tag[1]), style=style, indent=ind, gap=gap, depth=depth,
+                        text=" ".join(content.split()), lastch=content[-1:] if content else "", markup=markup))
+            if depth == 0:
+                for i in range(s, e):
+                    plain[i + 1] = True
         elif t.type == "fence" and t.map:
             s, e = t.map
             for i in range(s, e):
@@ -74,19 +82,22 @@ def facts(text):
             B.append(_b("html", t.map, depth=depth))
         elif t.type == "paragraph_open" and t.map:
             B.append(_b("p", t.map, depth=depth))
+            if depth == 0:
+                for i in range(t.map[0], t.map[1]):
+                    plain[i + 1] = True
     L = []
     for i, l in enumerate(lines, 1):
         trail = len(l) - len(l.rstrip(" "))
         L.append({"len": len(l), "trail": trail, "tabs": l.count("\t"), "blank": not l.strip(" \t"),
                   "cblank": bool(l.strip(" \t")) and not l.replace(">", "").strip(" \t"),
-                  "code": code[i], "html": html[i], "heading": heading[i], "setext": setext[i], "fenceline": fenceline[i], "inlist": inlist[i],
+                  "code": code[i], "html": html[i], "heading": heading[i], "setext": setext[i], "fenceline": fenceline[i], "inlist": inlist[i], "plain": plain[i],
                   "ws": [k + 1 for k, ch in enumerate(l) if ch in " \t"]})
     B.sort(key=lambda b: (b["ln"], -b["endln"]))
     return L, B
 
 
 def _b(k, mp, **kw):
-    d = {"k": k, "ln": mp[0] + 1, "endln": mp[1], "level": 0, "style": "", "info": "", "marker": "", "depth": 0, "indent": 0, "gap": 0}
+    d = {"k": k, "ln": mp[0] + 1, "endln": mp[1], "level": 0, "style": "", "info": "", "marker": "", "depth": 0, "indent": 0, "gap": 0, "text": "", "lastch": "", "markup": False}
     d.update(kw)
     return d
 
